@@ -15,7 +15,7 @@ def flagsets(F):
 def build_items(ctx, rnd):
     from wcmatch import fnmatch as F
     fs = flagsets(F)
-    pool = gen.segment_pool(ctx.tier, rnd, ext=True, budget=None if ctx.quick else 40000)
+    pool = gen.segment_pool(ctx.tier, rnd, ext=True, budget=None if ctx.quick else 20000)
     items = []
     for k, nodes in enumerate(pool):
         ext = gen.count_groups(nodes) > 0
